@@ -297,6 +297,34 @@ theorem jsonrpc_notification_invocations (env : Env) (path method params : Bytes
   rw [jsonrpc_notification_request path method params md hkeys hp hm]
   rfl
 
+
+/-- how often a request invokes a handler depends on the environment only – never on the request's
+    flags (a one-way request is executed exactly like a two-way one; only the write is left out) -/
+theorem dispatch_invokes_indep (env : Env) (req req' : Msg) :
+    (dispatch env req).filter (· == .invoke) = (dispatch env req').filter (· == .invoke) := by
+  have hr : ∀ (q : Msg) (m : Msg), (reply q m).filter (· == Action.invoke) = [] := by
+    intro q m; unfold reply; split <;> simp
+  unfold dispatch
+  cases env.target <;> simp only [] <;> (repeat' split) <;> simp [hr]
+
+/-- **JSON-RPC notification ≡ native one-way**: the notification invokes a handler exactly as often
+    as the identical one-way request on the native protocol -/
+theorem jsonrpc_notification_equals_native (env : Env) (path method params : Bytes) (md : List (Bytes × Bytes))
+    (hkeys : (md.map (·.1)).Nodup) (hp : path ≠ []) (hm : ∀ x ∈ method, x ≠ 0x2E#8)
+    (ht : env.target ≠ .router) (h1 : env.reachLimit = false) (h2 : env.postReadOk = true) (h3 : env.authErr = none) :
+    gwInvokes (jsonrpc true env false (path ++ 0x2E#8 :: method) params (encodeValues md) [])
+      = ((serveOne env (nativeReq 0#64 C.SerializeType_JSON false true path method md params)).filter (· == .invoke)).length := by
+  rw [jsonrpc_notification_invocations env path method params md hkeys hp hm]
+  have henv : httpEnv env = env := by unfold httpEnv; rw [if_neg ht]
+  have hhb : Header.isHeartbeat (nativeReq 0#64 C.SerializeType_JSON false true path method md params).hdr = false := by
+    simp [nativeReq, Header.isHeartbeat, Header.setOneway, Header.setSerializeType, Header.setSeq, baseHeader,
+      Header.setMessageType, C.magicNumber, C.MessageType_Request]
+  unfold httpOne serveOne
+  simp only [Bool.not_true, Bool.false_eq_true, if_false, h1, h2, h3, hhb, henv]
+  rw [filter_invoke_append_next]
+  simp only [List.filter_filter, Bool.and_self]
+  rw [dispatch_invokes_indep env _ (nativeReq 0#64 C.SerializeType_JSON false true path method md params)]
+
 /-- **JSON-RPC ≡ native**: same outcome (reply payload or error text) and the same number of handler
     invocations as the identical request on the native protocol -/
 theorem jsonrpc_equals_native (env : Env) (path method params : Bytes) (md : List (Bytes × Bytes))
